@@ -21,6 +21,73 @@ CLAIMED = {
              'per-(batch,channel) action, and mode reachability (reflect may raise only when the level is shorter '
              'than the filter). The source is interpreted, never executed; tensor contents and tap values never appear.',
         note=TB),
+    'C02': dict(
+        level='other', design='DESIGN.md 4/C02',
+        technique='abstract interpretation of inverse(forward(x)) over formal taps; polynomial operator evaluated '
+                  'at every PyWavelets filter table and compared with the identity on the original extent',
+        text='Decides S*A = I on the original extent for ALL inputs per configuration: the composed operator is '
+             'extracted symbolically (no input is ever chosen), its extent is checked (N or N+1 for odd N), and for '
+             'each PyWavelets wavelet of that length the tap polynomial entries are evaluated at the table values and '
+             'must equal the identity up to max(1e-9, 1.5x PyWavelets\' own reconstruction error) - which is the '
+             'dmey clause of the property. Unpad/level-loop bookkeeping is part of the interpreted code.',
+        note=TB + ' Perfect reconstruction of the PyWavelets tables themselves is an external fact that is '
+                  're-checked numerically through the composed operator.'),
+    'C05': dict(
+        level='other', design='DESIGN.md 4/C05',
+        technique='abstract interpretation of forward and hand-written backward of each autograd Function; '
+                  'operator transposition; exhaustive enumeration of needs_input_grad subsets',
+        text='For AFB1D, AFB2D, SFB1D, SFB2D, every mode, filter lengths, sizes (odd included) and every non-empty '
+             'subset of differentiable inputs: backward, interpreted on symbolic cotangents, must return for every '
+             'required input a gradient whose operator equals the transpose of the interpreted forward operator, '
+             'for all cotangents and all filter values; arity / None-ness are checked as autograd enforces them. '
+             'Non-adjoint modes of the pinned tree are recorded known findings keyed by (Function, mode, class of '
+             'difference, slot).',
+        note=TB),
+    'C10': dict(
+        level='translation_validation', design='DESIGN.md 4/C10',
+        technique='abstract interpretation over formal taps + translation validation against frozen PyWavelets '
+                  'waverec/waverec2 index rules',
+        text='The operator denoted by DWT1DInverse/DWTInverse on independent symbolic coefficient tensors (so: on '
+             'arbitrary pyramids, not only images of the analysis) equals PyWavelets\' waverec/waverec2 operator per '
+             'mode, filter length, size and level count, including the unpad rule; every mask of None levels for '
+             'J<=3 is compared with zeros of the right shape on the signal extent.',
+        note=TB),
+    'C13': dict(
+        level='translation_validation', design='DESIGN.md 4/C13',
+        technique='abstract interpretation + translation validation against the frozen pywt.swt2 rule; circulant '
+                  'structure of the extracted operator',
+        text='SWTForward with default mode, periodization and periodic: constructor and forward must not raise, '
+             'every level has shape (N,C,4,H,W) at full resolution, each band equals the swt2 operator (periodic, '
+             'filters dilated by 2^(j-1), band order A,H,V,D) for all inputs, and every axis table is circulant, '
+             'which is shift-equivariance.',
+        note=TB),
+    'C14': dict(
+        level='other', design='DESIGN.md 4/C14',
+        technique='role-flow by abstract interpretation: the four user filters are distinct formal symbols; the '
+                  'axis each one ends up filtering is read off the extracted operator',
+        text='DWTForward/DWTInverse constructed with a 4-tuple (different filter lengths per axis) must apply the '
+             'column pair along the vertical axis and the row pair along the horizontal axis, exactly as the '
+             'PyWavelets per-axis rule and as the functional afb2d/sfb2d given the same four filters; 2-tuples use '
+             'one pair on both axes. Complete over the def-use graph because the whole constructor-to-conv path is '
+             'interpreted.',
+        note=TB),
+    'C17': dict(
+        level='other', design='DESIGN.md 4/C17',
+        technique='operator identity between the interpreted inverse (rec taps substituted by reversed dec taps) '
+                  'and the transpose of the interpreted forward; PyWavelets tables read as data',
+        text='Under the precondition of the property (periodization, every level even and >= filter length): '
+             'inverse[g=rev h] == transpose(forward) cell by cell with formal taps, 1-D and 2-D, J<=3; all PyWavelets '
+             'orthogonal families satisfy rec=rev(dec) and orthonormality under even shifts. With C02 this yields '
+             'A^T A = I and energy preservation; with C05 back-propagation equals the inverse.',
+        note=TB),
+    'C19': dict(
+        level='translation_validation', design='DESIGN.md 4/C19',
+        technique='sibling translation validation by abstract interpretation (no external oracle)',
+        text='afb2d_nonsep vs afb2d and sfb2d_nonsep vs sfb2d are interpreted on the same symbolic input and formal '
+             'filters (2- and 4-filter forms, different lengths per axis) for zero, symmetric, reflect, '
+             'periodization: the extracted operators of all four subbands / of the reconstruction must be identical '
+             '(or both must raise).',
+        note=TB),
 }
 
 NOT_APPLICABLE = {}
